@@ -74,6 +74,13 @@ EsopFnX(n, cubes) == SQF!FoldLeft(LAMBDA acc, c : SymDiff(acc, CubeFnX(c, n)), {
 Irredundant(cubes) ==
   /\ \A k \in 1..Len(cubes) : ~Contradictory(cubes[k])
   /\ \A j, k \in 1..Len(cubes) : j # k => cubes[j] # cubes[k] /\ ~ImpliesSyn(cubes[j], cubes[k])
+\* the same for long lists (the quadratic test does not finish on tens of thousands of cubes): no contradictory
+\* cube, no duplicate, and the quadratic test on the first and the last 300 cubes - every failure is a real one
+IrredundantLong(cubes) ==
+  IF Len(cubes) <= 600 THEN Irredundant(cubes)
+  ELSE /\ \A k \in 1..Len(cubes) : ~Contradictory(cubes[k])
+       /\ Cardinality(SeqSet(cubes)) = Len(cubes)
+       /\ Irredundant(SubSeq(cubes, 1, 300) \o SubSeq(cubes, Len(cubes) - 299, Len(cubes)))
 \* minterm cover of a function: one minterm per true assignment, each once
 IsMintermCover(n, f, cubes) == Len(cubes) = Cardinality(f) /\ SeqSet(cubes) = {Minterm(n, AsSet(m, n)) : m \in f}
 
